@@ -173,6 +173,41 @@ def cworldCmd (st : CWState) (cmd : String) (args : List String) : Option (CWSta
     -- end of a scenario: the channel has ended and every RPC context is done; by C14_client_after_tunnel_end and
     -- C14_client_close_empties_table nothing is left
     some (st, "left=0,0,0 table=[]")
+  | "x.earlyreject" =>
+    -- a handler that rejects without reading the request; the request of `size` bytes is sent against a 64 KiB window.
+    -- The client endpoint model follows the code (finding D12 included): the close frame releases a send blocked on
+    -- the window with the bare context error.
+    match kvNat args "size", kv args "shape" with
+    | some size, some shape =>
+      let cfg : CCfg := {}
+      let c0 : Cli Nat := { (Cli.start cfg) with phase := .running, rev := 1, peerWin := 65536 }
+      let cs := shape == "CS"
+      let (c1, _, sid?) := c0.newStream cfg cs false [] [] none false
+      match sid? with
+      | none => some (st, "bad-op")
+      | some sid =>
+        -- marshalled StringValue: 1 tag byte + varint length + payload
+        let n := size + (if size < 128 then 2 else if size < 16384 then 3 else 4)
+        let (c2, o2) := c1.onCall cfg sid (.send (List.replicate n 0))
+        let (c3, o3) := c2.onFrame cfg sid (.close (mkStatus 7 "not allowed") [])
+        let sendRes := ((o2.add o3).dones.find? (fun d => d.2.1 == "send")).map (·.2.2)
+        let showR := fun (r : Option (Res Nat)) => match r with
+          | some .ok => "nil" | some (.ctx .canceled) => "ctx-canceled" | some (.status 7) => "status:PermissionDenied"
+          | some .eof => "eof" | _ => "other"
+        if cs then
+          let (c4, _) := c3.onCall cfg sid .closeSend
+          let (_, o5) := c4.onCall cfg sid .recv
+          let recvRes := (o5.dones.find? (fun d => d.2.1 == "recv")).map (·.2.2)
+          some (st, s!"send={showR sendRes},recv={showR recvRes}")
+        else
+          -- Invoke: a failed SendMsg is returned as is; otherwise CloseSend, RecvMsg
+          match sendRes with
+          | some .ok =>
+            let (c4, _) := c3.onCall cfg sid .closeSend
+            let (_, o5) := c4.onCall cfg sid .recv
+            some (st, showR ((o5.dones.find? (fun d => d.2.1 == "recv")).map (·.2.2)))
+          | r => some (st, showR r)
+    | _, _ => some (st, "bad-op")
   | "x.closeerr" =>
     -- a forward tunnel over real grpc-go ended by `cause`: what Done()/Err() report and what a later RPC does,
     -- according to the client endpoint model (Cli.close / Cli.carrierEnds / Cli.newStream)
